@@ -246,7 +246,8 @@ def compare_rules(ctx: Ctx, fi) -> None:
                           message=f"`{short(g.test)}`: zero-length notes would survive, or proper notes be removed", file=fi.file, node=g)
     n_overlap = 0
     from ..model import _Canon
-    for g in [x for x in ast.walk(loop) if isinstance(x, ast.If) and x.orelse and "[1]" in src(x.test)]:
+    for g in [x for x in ast.walk(loop) if isinstance(x, ast.If) and x.orelse and ".time" in src(x.test)
+              and any(isinstance(c_, ast.Compare) and isinstance(c_.ops[0], (ast.In, ast.NotIn)) for c_ in ast.walk(x.test))]:
         # the branch that accepts the note-on is the one that registers it in a table; its condition is the test or its negation
         def registers(blk):
             return any(isinstance(a, ast.Assign) and isinstance(a.targets[0], ast.Subscript) for y in blk for a in ast.walk(y))
